@@ -170,6 +170,8 @@ def gen_learning(rng, name, quick):
     """configurations in which training (and hence target updates) actually happens"""
     while True:
         cfg = lc.gen_config(rng, name, quick)
+        if name in ("nature_dqn", "ddqn", "per") and not (cfg["total"] >= 12 and cfg["start"] <= 3 and cfg["warm"] <= 4):
+            continue      # two periods (update, target copy): the run must reach a copy point that follows an update and is not a common multiple
         if cfg["total"] - cfg["start"] >= 6 and cfg["warm"] <= cfg["start"] + 4:
             return cfg
 
